@@ -31,6 +31,27 @@ def run(ctx):
         wrap += [('lw%d_%d' % (w, i), src, a, w, 64, False, 200000)
                  for i, (src, a, tag) in enumerate(gen_special.fault_programs(ctx.rng, w, 1)) if tag.startswith('two_lengthwrap')]
     suites.differential(ctx, wrap, None, label='length-wrap')
+    # global arrays have no run-time length guard: a length the unsigned index check cannot protect (more than the largest signed
+    # word, in elements) must be refused at compile time - if it compiles, negative indices reach foreign memory
+    import dump_ast
+    big = []
+    for w in (2, 3):
+        H = 1 << (8 * w - 1)
+        for el in ('bool', 'byte', 'int', 'string'):
+            for n in (H, H + 7, H + 8000, 2 * H - 1):
+                if w == 3 and el != 'bool': continue      # would need megabytes of state
+                src = ('int total = 0;\n%s big[%d];\nempty @is_you(int i) { big[i] = %s; write(total); write(big[3] %s); }'
+                       % (el, n, {'bool': 'true', 'byte': '9', 'int': '9', 'string': '"s"'}[el], {'bool': '', 'byte': ' is int', 'int': '', 'string': ''}[el]))
+                try:
+                    dump_ast.case('big', src, ['-%d' % (H - 752)], w=w, s=64)
+                    big.append((src, w, n))
+                except Exception as e:
+                    if type(e).__name__ not in ('CodeGenError', 'TypeCheckError'):
+                        ctx.violations.append(dict(what='internal exception for an oversized global array: %s' % type(e).__name__, kind='INTERNAL', source=src, args=[], config=dict(w=w)))
+    ctx.stats['oversized_global_arrays'] = dict(accepted=len(big))
+    for src, w, n in big[:3]:
+        ctx.violations.append(dict(what='global array of %d elements accepted at %d-bit words: the unsigned index check cannot reject negative indices' % (n, 8 * w),
+                                   kind='GLOBAL-LENGTH', source=src, args=['-%d' % ((1 << (8 * w - 1)) - 752)], config=dict(w=w, stack=64, unchecked=False)))
     seq = [j for j in jobs]
     seq += suites.core_suite(ctx, ctx.budget(120, 2000), configs=((2, 0, False), (2, 3, False), (2, 9, False), (3, 5, False), (4, 7, False), (8, 4, False)), faults=0.0)
     suites.tight_stack(ctx, seq, label='tight-stack-sequential')
